@@ -338,7 +338,7 @@ Next ==
   /\ l <= Len(Trace)
   /\ l' = l + 1
   /\ LET r == Trace[l]
-     IN IF r.k = "init" THEN s' = [InitState(CfgOf(r.cfg)) EXCEPT !.saveFailFrom = r.cfg.saveFailFrom, !.saveFailOnly = r.cfg.saveFailOnly, !.ctrFailOnly = r.cfg.ctrFailOnly,
+     IN IF r.k = "init" THEN s' = [InitState(CfgOf(r.cfg)) EXCEPT !.saveFailFrom = r.cfg.saveFailFrom, !.saveFailOnly = r.cfg.saveFailOnly, !.ctrFailOnly = r.cfg.ctrFailOnly, !.imposeHb = r.cfg.imposeHb,
                                                               !.user = IF r.cfg.creds \in {"", "useronly"} THEN CfgUser ELSE "",
                                                               !.pass = IF r.cfg.creds \in {"", "passonly"} THEN CfgPass ELSE ""] /\ skip' = FALSE /\ appr' = FALSE /\ ids' = FALSE
         ELSE /\ appr' = (appr \/ GoodLogon(s.cfg, r.a))
